@@ -1143,6 +1143,23 @@ class ErrorItems(Sub):
         return out[:8]
 
 
+class Near(object):
+    """a float that equals whatever lies within 1e-12 of it (relative)"""
+    def __init__(self, value):
+        self.value = value
+
+    def __eq__(self, other):
+        return isinstance(other, (int, float)) and abs(other - self.value) <= 1e-12 * abs(self.value)
+
+    __req__ = __eq__
+
+    def __ne__(self, other):
+        return not self.__eq__(other)
+
+    def __repr__(self):
+        return repr(self.value)
+
+
 class ExtremeItems(Sub):
     name = 'c11.extreme_items'
     rule = ('MEDIAN, AVERAGE, MIN, MAX and LARGE over 2..4 items near or beyond the largest double whose SUM cannot be held '
@@ -1155,7 +1172,9 @@ class ExtremeItems(Sub):
              [-1.5e308, -1.7e308], [1e308, 1.5e308, 1.6e308, 1.7e308], [2 ** 1024, 2 ** 1024 + 2], [-(10 ** 309), 10 ** 309]]
     FUNCS = ['MEDIAN', 'AVERAGE', 'MIN', 'MAX', 'LARGE2']
     # whole numbers (every whole-number literal is one) among floats whose sum cancels: the sum is rounded once, in every order
-    MIXED = [[10 ** 16, 1.0, -10 ** 16], [10 ** 16, 0.5, -10 ** 16, 0.25], [2 ** 60, 1.5, -2 ** 60], [10 ** 400, 1.0, -10 ** 400]]
+    MIXED = [[10 ** 16, 1.0, -10 ** 16], [10 ** 16, 0.5, -10 ** 16, 0.25], [2 ** 60, 1.5, -2 ** 60], [10 ** 400, 1.0, -10 ** 400],
+             # ... and whole numbers WITHIN 2^53 that cancel against a float: the floats are not to be rounded among themselves first
+             [2 ** 53, -(2.0 ** 53 - 1), 0.3], [10 ** 15, -999999999999999.5, 0.3], [1000000, -999999.5, 0.0000000003]]
 
     def cases(self, tier, unit):
         for li in range(len(self.LISTS)):
@@ -1170,12 +1189,21 @@ class ExtremeItems(Sub):
     # whole-number products right below the bound up to which whole numbers are computed (2^17 bits: the exact product), a zero among
     # factors whose product is beyond it (0 in every order), and plain cases
     PRODUCTS = [[2 ** 65536, 2 ** 65535], [2 ** 131070, 2], [2 ** 131071, 1], [2 ** 100000, 2 ** 31071, 1], [3, 2 ** 131069], [2 ** 131071, 4, 0],
-                [0, 2 ** 131071, 4], [2 ** 70000, 0, 2 ** 70000], [7 ** 20000, 3 ** 30000, -1], [2 ** 1000, 0.5], [1.5, 4, 0]]
+                [0, 2 ** 131071, 4], [2 ** 70000, 0, 2 ** 70000], [7 ** 20000, 3 ** 30000, -1], [2 ** 1000, 0.5], [1.5, 4, 0],
+                # whole numbers beyond the largest double with a float that brings the product back (the interpreter's int * float refuses them)
+                [10 ** 310, 0.001], [10 ** 200, 10 ** 200, 1e-300], [10 ** 155, 10 ** 155, 0.001], [2 ** 1030, 2.0 ** -10, 3]]
 
     def product(self, env, items):
-        want = 1
-        for x in items:
-            want = want * x
+        if any(isinstance(x, float) for x in items):
+            # a float among whole numbers: the exact product, rounded (the order of the float factors may show in the last places)
+            exact = Fraction(1)
+            for x in items:
+                exact *= Fraction(x)
+            want = Near(float(exact))
+        else:
+            want = 1
+            for x in items:
+                want = want * x
         for perm in sorted(set(itertools.permutations(items))):
             for f, vars_ in (('PRODUCT(arr)', {'arr': list(perm)}), ('PRODUCT(arr,brr)', {'arr': list(perm[:1]), 'brr': [list(perm[1:])]})):
                 o = env.evo(f, vars_)
@@ -1204,7 +1232,8 @@ class ExtremeItems(Sub):
             for perm in sorted(set(itertools.permutations(items)), key=repr):
                 for f in ('SUMIF(xones,">0",arr)', 'SUMIFS(arr,xones,">0")', 'SUMIF(arr,"<>0.125")'):
                     o = env.evo(f, {'arr': list(perm), 'xones': [1] * len(perm)})
-                    if not (o[0] == 'v' and isinstance(o[1], (int, float)) and not isinstance(o[1], bool) and Fraction(o[1]) == want):
+                    if not (o[0] == 'v' and isinstance(o[1], (int, float)) and not isinstance(o[1], bool) and (
+                            Fraction(o[1]) == want or o[1] == float(want))):
                         return fail('%s with arr = %r = %r, expected %s (every item is selected: the sum of the items, rounded once)' % (f, list(perm), o, float(want)),
                                     float(want), o)
             return None
